@@ -890,3 +890,103 @@ func TestStoreFree(t *testing.T) {
 		res.Steps += len(r.obs)
 	}
 }
+
+// TestStoreOps executes given operation sequences (VERIF_IN: one JSON array of steps per line, only `op` and `now` are
+// used) without expectations and records what the real backend did; TLC validates the record (StoreTrace).  Used for
+// sequences that are composed by the orchestrator rather than generated by TLC (bulk dump/restore of hundreds of entries).
+func TestStoreOps(t *testing.T) {
+	in := os.Getenv("VERIF_IN")
+	if in == "" || os.Getenv("VERIF_STOREOPS") == "" {
+		t.Skip("VERIF_STOREOPS not set")
+	}
+
+	var cfg StoreCfg
+	mustNoErr(readJSON(os.Getenv("VERIF_CFG"), &cfg), "read cfg")
+
+	seed := envInt("VERIF_SEED", 1)
+	res := Result{Extra: map[string]interface{}{}}
+
+	defer func() { mustNoErr(writeJSON(os.Getenv("VERIF_OUT"), res), "write result") }()
+
+	behs, err := loadBehaviours(in)
+	mustNoErr(err, "load")
+
+	out, err := os.Create(os.Getenv("VERIF_TRACE_OUT"))
+	mustNoErr(err, "trace out")
+
+	defer out.Close()
+
+	enc := json.NewEncoder(out)
+
+	for bi, b := range behs {
+		kind := cfg.Kinds[bi%len(cfg.Kinds)]
+
+		// many keys: lengths 0..40, binary and printable, all distinct
+		km := &KeyMap{ByModel: map[string][]byte{}, ByReal: map[string]string{}}
+		rng := rand.New(rand.NewSource(seed + int64(bi))) //nolint:gosec
+
+		for i, m := range cfg.Keys {
+			var k []byte
+
+			for {
+				k = make([]byte, rng.Intn(41))
+				for j := range k {
+					if i%2 == 0 {
+						k[j] = byte(rng.Intn(256))
+					} else {
+						k[j] = byte('a' + rng.Intn(26))
+					}
+				}
+
+				if _, dup := km.ByReal[string(k)]; !dup {
+					break
+				}
+			}
+
+			km.ByModel[m] = k
+			km.ByReal[string(k)] = m
+		}
+
+		r := &storeRun{cfg: cfg, km: km, u: cfg.unit(), stat: NewStatRec()}
+		mk := func(kind string) Backend { return NewBackend(kind, cfg.cacheConfig("store", r.stat, &r.needed)) }
+		r.be = mk(kind)
+
+		var spares []Backend
+
+		nk := kind
+		for _, st := range b {
+			if st.Op.Name == "Relay" {
+				nk = relayNext[nk]
+				spares = append(spares, mk(nk))
+			}
+		}
+
+		r.mk = func(string) Backend {
+			s := spares[0]
+			spares = spares[1:]
+
+			return s
+		}
+
+		synctest.Test(t, func(t *testing.T) {
+			r.t0 = time.Now()
+
+			for i, st := range b {
+				time.Sleep(Eps)
+
+				got := r.exec(st)
+
+				ents, prob := r.project(i)
+				if prob != "" {
+					got = repJ{R: "error:" + prob}
+				}
+
+				r.obs = append(r.obs, stepJ{Op: st.Op, Reply: got, Now: st.Now, St: ents, Met: r.metrics()})
+			}
+		})
+
+		_ = enc.Encode(map[string]interface{}{"b": bi, "kind": kind, "steps": r.obs})
+		res.Evaluations++
+		res.Steps += len(r.obs)
+	}
+}
